@@ -278,6 +278,33 @@ class Interp:
             raise AnalysisError(f"absint: module-level `{modname}.{name}` cannot be evaluated")
         return v
 
+    def module_env(self, modname: str, skip=()):
+        """The module-level names of a repository module as its top-level statements leave them, executed in order (imports, function and class
+        definitions are resolved elsewhere and skipped; a statement that cannot be interpreted leaves the names it binds undefined and is reported in
+        the second result)."""
+        m = self.repo.mod(modname)
+        env: dict = {}
+        problems = []
+        self.ctx.append(m)
+        try:
+            for st in m.tree.body:
+                if isinstance(st, (ast.Import, ast.ImportFrom, ast.FunctionDef, ast.AsyncFunctionDef, ast.ClassDef)):
+                    continue
+                if isinstance(st, ast.Expr) and isinstance(st.value, ast.Constant):
+                    continue  # docstring
+                bound = {n.id for n in ast.walk(st) if isinstance(n, ast.Name) and isinstance(n.ctx, ast.Store)}
+                if bound & set(skip):
+                    continue
+                try:
+                    self.stmt(st, env)
+                except (AnalysisError, Raised) as ex:
+                    problems.append((sorted(bound), str(getattr(ex, "what", ex))))
+                    for b in bound:
+                        env.pop(b, None)
+        finally:
+            self.ctx.pop()
+        return env, problems
+
     def install_ufl_classes(self, *modnames):
         """Every `ufl.<...>.<Class>` the given modules mention stands for itself: a class value compared by name."""
         for mn in modnames:
@@ -469,7 +496,7 @@ class Interp:
             return _Ret(self.expr(st.value, env) if st.value is not None else None)
         if isinstance(st, ast.Raise):
             if st.exc is None or (isinstance(st.exc, ast.Name) and isinstance(env.get(st.exc.id), Raised)):
-                cur = env.get(st.exc.id) if st.exc is not None else next((v for v in reversed(list(env.values())) if isinstance(v, Raised)), None)
+                cur = env.get(st.exc.id) if st.exc is not None else (env.get("__exc__") or next((v for v in reversed(list(env.values())) if isinstance(v, Raised)), None))
                 if cur is not None:
                     raise cur
             raise Raised(ast.unparse(st)[:60])
@@ -567,11 +594,18 @@ class Interp:
                     if h.type is None or any(n_ == "BaseException" or (n_ == "Exception" and not base_only) or n_ == kind or n_ in parents.get(kind, ()) for n_ in names):
                         if h.name:
                             env[h.name] = ex
+                        prev_exc = env.get("__exc__")
+                        env["__exc__"] = ex   # the exception being handled: what a bare `raise` re-raises
                         try:
                             return fin(self.block(h.body, env))
                         except Raised:
                             fin(None)
                             raise
+                        finally:
+                            if prev_exc is None:
+                                env.pop("__exc__", None)
+                            else:
+                                env["__exc__"] = prev_exc
                 fin(None)
                 raise
             if r is None and st.orelse:
@@ -938,6 +972,8 @@ class Interp:
                 return "DataType." + e.attr
             if d and d in self.overrides:
                 return self.overrides[d]
+            if d == "contextlib.suppress" and "contextlib" not in env:
+                return _PyCall(lambda *kinds: _Suppress(kinds))
             if d:
                 parts = d.split(".")
                 if (self.is_lalias(parts[0]) or (not self.ctx and parts[0] in self.lalias)) and parts[0] not in env:
@@ -1304,6 +1340,13 @@ class Interp:
             if "." not in qn or "self" not in env:
                 raise AnalysisError("absint: super() outside a method")
             return _Super(qn.rsplit(".", 1)[0], env["self"])
+        # builtins modelled below take the keywords listed here and no others: an unknown keyword must not be dropped silently
+        _kw_ok = {"enumerate": {"start"}, "zip": {"strict"}, "sorted": {"key", "reverse"}, "max": {"key", "default"}, "min": {"key", "default"}, "sum": {"start"},
+                  "dict": None, "int": {"base"}, "print": None, "round": {"ndigits"}, "next": set(), "len": set(), "range": set(), "reversed": set(), "list": set(),
+                  "tuple": set(), "set": set(), "frozenset": set(), "any": set(), "all": set(), "abs": set(), "bool": set(), "hash": set(), "iter": set(),
+                  "str": set(), "repr": set(), "getattr": set(), "hasattr": set(), "type": set(), "float": set(), "isinstance": set(), "issubclass": set()}
+        if kw and fn in _kw_ok and _kw_ok[fn] is not None and fn not in self.overrides and fn not in env and not set(kw) <= _kw_ok[fn]:
+            raise AnalysisError(f"absint: keyword(s) {sorted(set(kw) - _kw_ok[fn])} of builtin `{fn}` not modelled")
         if fn == "issubclass" and len(vals) == 2:
             a_, b_ = vals
             bs_ = b_ if isinstance(b_, tuple) else (b_,)
@@ -1327,7 +1370,10 @@ class Interp:
                 raise Raised("ValueError: zip() arguments have different lengths")
             return [tuple(t) for t in zip(*seqs)]
         if fn == "enumerate":
-            return [(i, x) for i, x in enumerate(self.iterate(vals[0]))]
+            start = kw.get("start", vals[1] if len(vals) > 1 else 0)
+            if not isinstance(start, int) or isinstance(start, bool):
+                raise AnalysisError("absint: enumerate with a non-integer start")
+            return [(i, x) for i, x in enumerate(self.iterate(vals[0]), start)]
         if fn == "reversed":
             return list(reversed(self.iterate(vals[0])))
         if fn in ("itertools.chain", "chain"):
